@@ -28,7 +28,7 @@ def shards(tier, seed):
         out.append({"name": "scale-" + cls, "kind": "scale", "cls": cls, "after_history": cls in ("Major", "Dorian", "Chromatic", "HarmonicMinor"),
                     "acc": 2 if tier == "quick" else 3,
                     "octaves": [1, 2, 3] if tier == "quick" else [1, 2, 3, 4, 5, 6], "weight": 3})
-    out.append({"name": "cold-order", "kind": "cold", "weight": 3})
+    out.append({"name": "cold-order", "kind": "cold", "cold": True, "weight": 3})
     out.append({"name": "equality", "kind": "eq", "weight": 2})
     n = 2000 if tier == "quick" else 60000
     parts = 8 if tier == "quick" else 16
